@@ -21,8 +21,9 @@ Definition ccid_ok (c : option ccid) : bool := match c with Some c => ccid_valid
 Definition amount_valid (a : gen_amount) : bool :=
   negb (String.eqb (ga_denom a) "") && ccid_ok (ga_src a) && ccid_ok (ga_dst a) &&
   (0 <=? ga_in a) && (0 <=? ga_out a) && ((0 <? ga_in a) || (0 <? ga_out a)).
+(* the count is a uint64: "not zero" is "positive" *)
 Definition count_valid (c : gen_count) : bool :=
-  negb (gc_n c =? 0) && ccid_ok (gc_src c) && ccid_ok (gc_dst c).
+  (0 <? gc_n c) && ccid_ok (gc_src c) && ccid_ok (gc_dst c).
 
 Fixpoint distinct {A} (eqb : A -> A -> bool) (l : list A) : bool :=
   match l with
